@@ -400,6 +400,14 @@ def main():
         return 2
     prop = a[0]
     try:
+        if prop == "--warm":
+            # setup: generate the TLC test suites of the given tier once (pure functions of the spec)
+            wd = os.path.join(WORK, "warm")
+            os.makedirs(wd, exist_ok=True)
+            names = sorted({n for pl in PLANS.values() for n in pl["emit"][a[1]]})
+            for n in names:
+                edges_for(n, wd)
+            return 0
         if a[1] == "--replay":
             return replay(prop, a[2])
         tier = a[1]
